@@ -24,6 +24,7 @@ import Driver.C19
 import Driver.C17
 import Driver.LeakyBucket
 import Driver.Factory
+import Driver.Heartbeat
 
 def main (args : List String) : IO UInt32 := do
   match args with
@@ -62,6 +63,7 @@ def main (args : List String) : IO UInt32 := do
       | "c19" => Driver.C19.run ops impl
       | "c17" => Driver.C17.run ops impl
       | "leakybucket" => Driver.LeakyBucket.run ops impl
+      | "heartbeat" => Driver.HeartbeatD.run ops impl
       | "factory" => Driver.Factory.run "" ops impl
       | "factory-c13" => Driver.Factory.run "c13-" ops impl
       | "factory-c14" => Driver.Factory.run "c14-" ops impl
